@@ -1,6 +1,8 @@
 import Proofs.C06.Watch
 import Proofs.C06.Wire
 import Proofs.C06.Prefix
+import Proofs.C06.Wf
+import Proofs.C06.More
 /-!
 # C06 — a gossiping KV cluster converges after any loss, reordering or partition (property theorems)
 
@@ -37,12 +39,12 @@ theorem reachable_inv (hU : Univ U) (hT : TombClosed U) {cfg : Cfg} (hcfg : cfg.
     Inv U (runC cfg (initC n clock) evs) :=
   inv_run hU hT hcfg (inv_init n hclock) evs hevs
 
-/-- every event except a restart weakly increases every node's value (per key, per instance) in the
+/-- every event except a restart of node `i` itself weakly increases node `i`'s value (per key, per instance) in the
 merge order -/
 theorem store_monotone (hU : Univ U) (hT : TombClosed U) {cfg : Cfg} (hcfg : cfg.lit = 0) {c : Cluster Desc}
-    (hinv : Inv U c) (ev : Event Desc) (hev : GoodEv U c.clock ev) (hnr : notRestart ev) (i : Nat) (key : String) :
+    (hinv : Inv U c) (ev : Event Desc) (hev : GoodEv U c.clock ev) (i : Nat) (hnr : notRestartOf i ev) (key : String) :
     Le (nval c i key) (nval (stepC cfg c ev) i key) :=
-  step_mono hU hT hcfg hinv ev hev hnr i key
+  step_mono hU hT hcfg hinv ev hev i hnr key
 
 /-- after node `b` merged the full state of node `a` its value is the join of both, for every key;
 no other node changes -/
@@ -68,7 +70,9 @@ theorem sync_agree (hU : Univ U) (hT : TombClosed U) {cfg : Cfg} (hcfg : cfg.lit
       (nval (runC cfg c (syncEvents Desc (c.nodes.length - 1))) j key) :=
   (PfC06.sync_converges hU hT hcfg hinv h0 i hi key hkey).trans (PfC06.sync_converges hU hT hcfg hinv h0 j hj key hkey).symm
 
-/-- an acknowledged CAS leaves its output contained in the node's store ... -/
+/-- an acknowledged CAS leaves its output contained in the node's store (`Le` is per instance: it says nothing
+about instances the CAS REMOVED — for those see `PC04.removal_forwarded`: the removal is stored as a tombstone
+stamped with the clock and queued) ... -/
 theorem cas_ack_stored (hU : Univ U) (hT : TombClosed U) {cfg : Cfg} (hcfg : cfg.lit = 0) {clock : Int} (hclock : clock ≥ 1)
     (nowMs : Int) {nd : Node Desc} {key : String} {f : Option Desc → Option Desc} (hnd : GoodNode U clock nd)
     (hf : GoodFn U clock f) (out : Desc) (hout : f (nd.get key).1 = some out)
@@ -81,6 +85,64 @@ theorem acked_visible (hU : Univ U) (hT : TombClosed U) {cfg : Cfg} (hcfg : cfg.
     (hinv : Inv U c) (h0 : 0 < c.nodes.length) (i j : Nat) (hi : i < c.nodes.length) (hj : j < c.nodes.length) (key : String)
     (hkey : key ≠ "") : Le (nval c j key) (nval (runC cfg c (syncEvents Desc (c.nodes.length - 1))) i key) :=
   PfC06.acked_visible hU hT hcfg hinv h0 i j hi hj key hkey
+
+/-- **end to end**: node `i` acknowledges a CAS whose function returned `out`; then ANY good events follow in
+which node `i` itself is not restarted (loss, duplication, reordering, partitions, restarts of OTHER nodes,
+further updates anywhere); then the two sync passes run: every node's value for the key contains `out`.
+(If node `i` restarts before anything it sent was merged elsewhere the update is lost with the node — the
+model and the code agree; the judge keeps such an acknowledgement only if another node already held it.) -/
+theorem acked_eventually_visible (hU : Univ U) (hT : TombClosed U) {cfg : Cfg} (hcfg : cfg.lit = 0) {c : Cluster Desc}
+    (hinv : Inv U c) (i : Nat) (key : String) (hkey : key ≠ "") (f : Option Desc → Option Desc) (hf : GoodFn U c.clock f)
+    (nd : Node Desc) (hnd : c.nodes[i]? = some nd) (out : Desc) (hout : f (nd.get key).1 = some out)
+    (hok : (cas cfg c.clock (c.clock * 1000) nd key f).2 = .ok)
+    (mid : List (Event Desc)) (hmid : GoodRun U cfg (stepC cfg c (.cas i key f)) mid) (hnr : ∀ e ∈ mid, notRestartOf i e)
+    (j : Nat) (hj : j < c.nodes.length) :
+    Le out (nval (runC cfg (runC cfg (stepC cfg c (.cas i key f)) mid) (syncEvents Desc (c.nodes.length - 1))) j key) :=
+  PfC06.acked_eventually_visible hU hT hcfg hinv i key hkey f hf nd hnd out hout hok mid hmid hnr j hj
+
+/-- "once messages flow again (rebroadcasts …)": a gossiped delta that is delivered makes the receiver's value
+the join of its value and the delta; no other node changes -/
+theorem deliver_joins (hU : Univ U) {cfg : Cfg} (hcfg : cfg.lit = 0) {c : Cluster Desc} (hinv : Inv U c) (n m : Nat)
+    (msg : Msg Desc) (hm : c.net[m]? = some msg) (hk : msg.key ≠ "") (hn : n < c.nodes.length) :
+    Eqv (nval (stepC cfg c (.deliver n m)) n msg.key) (mergeState (nval c n msg.key) msg.val) ∧
+    ∀ i, i ≠ n → (stepC cfg c (.deliver n m)).nodes[i]? = c.nodes[i]? :=
+  PfC06.deliver_joins hU hcfg hinv n m msg hm hk hn
+
+/-- a CAS either changes nothing (store and queues as before) or queues exactly one broadcast in the queue of
+locally generated updates: for the key, with the bumped version, a good change made of the node's current entries -/
+theorem cas_enqueues (hU : Univ U) (hT : TombClosed U) {cfg : Cfg} (hcfg : cfg.lit = 0) {clock : Int} (hclock : clock ≥ 1)
+    (nowMs : Int) {nd : Node Desc} {key : String} {f : Option Desc → Option Desc} (hnd : GoodNode U clock nd)
+    (hf : GoodFn U clock f) : LocalQueueStep U clock key nd (cas cfg clock nowMs nd key f).1 :=
+  (cas_spec hU hT hcfg hclock nowMs hnd hf).queue
+
+/-- "all nodes EXPOSE the same value": after the sync the values handed to readers (`KV.Get`, CAS functions,
+watchers: stored value minus tombstones) agree on every node -/
+theorem sync_agree_exposed (hU : Univ U) (hT : TombClosed U) {cfg : Cfg} (hcfg : cfg.lit = 0) {c : Cluster Desc}
+    (hinv : Inv U c) (h0 : 0 < c.nodes.length) (i j : Nat) (hi : i < c.nodes.length) (hj : j < c.nodes.length) (key : String)
+    (hkey : key ≠ "") :
+    Eqv (exposed (runC cfg c (syncEvents Desc (c.nodes.length - 1))) i key)
+        (exposed (runC cfg c (syncEvents Desc (c.nodes.length - 1))) j key) := by
+  have hinv' : Inv U (runC cfg c (syncEvents Desc (c.nodes.length - 1))) := by
+    apply inv_run hU hT hcfg hinv
+    -- the sync events are push/pulls: nothing to assume about them
+    have : ∀ (evs : List (Event Desc)) (c : Cluster Desc), (∀ e ∈ evs, ∃ a b, e = .pushPull a b) → GoodRun U cfg c evs := by
+      intro evs
+      induction evs with
+      | nil => intro _ _; trivial
+      | cons e es ih =>
+        intro c h
+        obtain ⟨a, b, rfl⟩ := h e (by simp)
+        exact ⟨trivial, ih _ (fun x hx => h x (by simp [hx]))⟩
+    apply this
+    intro e he
+    simp only [syncEvents, List.mem_append, List.mem_map] at he
+    rcases he with ⟨k, _, rfl⟩ | ⟨k, _, rfl⟩ <;> exact ⟨_, _, rfl⟩
+  exact eqv_strip (nval_drawn hinv' i key).1.nodup (nval_drawn hinv' j key).1.nodup
+    (sync_agree hU hT hcfg hinv h0 i j hi hj key hkey)
+
+/-- the exposed value is what `Node.get` (the model of `KV.get`) returns -/
+theorem exposed_is_get (c : Cluster Desc) (i : Nat) (key : String) (nd : Node Desc) (hn : c.nodes[i]? = some nd) :
+    ((nd.get key).1).getD [] = exposed c i key := exposed_eq_get c i key nd hn
 
 /-- the invalidation rule: same key, the old content is contained in the new one, not older -/
 theorem invalidates_spec (nk : String) (nc : List String) (nv : Nat) (ok : String) (oc : List String) (ov : Nat) :
@@ -123,6 +185,43 @@ theorem corrupt_pairs_noop {V R : Type} [MergeVal V] (dec : R → Option (Msg V)
 theorem corrupt_state_noop {V R : Type} [MergeVal V] (dec : R → Option (Msg V)) (cfg : Cfg) (now : Int) (nd : Node V)
     (raws : List R) (h : ∀ r ∈ raws, Malformed dec r) : receiveState dec cfg now nd raws = nd :=
   PfC06.corrupt_state_noop dec cfg now nd raws h
+
+/-! ### every value in the cluster is well-formed (the C05 invariant, at cluster level)
+
+`KV.computeNewValue` stores the FIRST value of a key verbatim — no normalisation, no conflict
+resolution — so well-formedness of a memberlist replica is not a per-replica induction over merges
+from the empty descriptor. It is an invariant of the whole cluster: for ANY configuration (any
+retention), ANY schedule of the events of `stepC` (loss, duplication, reordering, partitions, restarts,
+full-state exchanges), if every function passed to CAS returns a well-formed descriptor whenever its
+input is well-formed or absent (`WfFn`; `PfC05.WF` = unique ids, strictly sorted token lists, no tokens
+on tombstones, no token in two entries), then every stored value (tombstones included), every queued
+broadcast and every message in flight is well-formed. -/
+theorem cluster_values_wf (cfg : Cfg) (n : Nat) (clock : Int) (evs : List (Event Desc)) (hevs : WfRun evs) :
+    (∀ nd ∈ (runC cfg (initC n clock) evs).nodes,
+      (∀ p ∈ nd.store, PfC05.WF p.2.val) ∧ (∀ b ∈ nd.localQ, PfC05.WF b.change) ∧ (∀ b ∈ nd.gossipQ, PfC05.WF b.change)) ∧
+    (∀ m ∈ (runC cfg (initC n clock) evs).net, PfC05.WF m.val) :=
+  ⟨(wf_run cfg evs (wf_init n clock) hevs).nodes, (wf_run cfg evs (wf_init n clock) hevs).net⟩
+
+/-- the ingredients: a change reported by a merge into a well-formed state is well-formed, and so is
+every sub-descriptor (unique ids, entries taken from it) of a well-formed descriptor -/
+theorem change_wf (cas : Bool) (now : Int) (this other : Desc) (hw : PfC05.WF this) (ho : (ids other).Nodup)
+    (ch : Desc) (hch : (C03.merge cas now this other).change = some ch) : PfC05.WF ch :=
+  merge_change_wf cas now this other hw ho ch hch
+
+theorem sub_descriptor_wf {st ch : Desc} (hw : PfC05.WF st) (hn : (ids ch).Nodup) (hmem : ∀ e ∈ ch, e ∈ st) : PfC05.WF ch :=
+  wf_of_sub hw hn hmem
+
+/-- the proviso is needed (witness): an ill-formed FIRST message — unsorted and duplicated tokens, token 1
+claimed by two instances, tokens on a tombstone — is stored as is by a node that has no value for the
+key, and re-queued as is; a node that already holds the key normalises and resolves it -/
+theorem illformed_first_value_stored_verbatim :
+    let bad : Desc := [{ id := "a", ts := 5, tokens := [5, 1, 5] }, { id := "b", ts := 5, tokens := [1] },
+                       { id := "c", ts := 5, state := .LEFT, tokens := [9] }]
+    let fresh := deliver (V := Desc) {} 10 {} { key := "r", val := bad }
+    let holder := deliver (V := Desc) {} 10 { store := [("r", { val := [{ id := "d", ts := 4, tokens := [7] }], version := 1 })] }
+                    { key := "r", val := bad }
+    sval fresh.store "r" = bad ∧ C03.wf bad = false ∧ fresh.gossipQ.map (·.change) = [bad] ∧
+    C03.wf (sval holder.store "r") = true := by decide
 
 /-! ### the receive paths on raw bytes (framing + `KeyValuePair` fields + codec lookup + value decoding)
 
@@ -212,6 +311,18 @@ theorem watchers_caught_up_partial (hU : Univ U) (hT : TombClosed U) {cfg : Cfg}
     verOf nd.store w.key = seenOf w w.key ∧
     ∀ v, lookL w.last w.key = some v → ∃ e, getE nd.store w.key = some e ∧ v = removeTombstones none e.val :=
   caught_up (winv_run hU hT hcfg evs (inv_init n hclock) (winv_init n clock) hevs nd hnd) hq hn w hw hp
+
+/-- **settling establishes the quiescence `watchers_caught_up_partial` assumes**: `settle` (flush the delayed
+notifications, let every watcher drain its channel — a finite sequence of `notifyTick` / `watcherRun` steps)
+leaves every channel and the delayed-notification set empty, and every `WatchKey` watcher has then seen the
+current version and was last called with the current exposed value. After the sync passes that value is the
+common value of all nodes (`sync_agree_exposed`). -/
+theorem settle_caught_up {cfg : Cfg} {nd : Node Desc} (h : WInv nd) (hn : cfg.ni = false → nd.notifs = []) :
+    (∀ w ∈ (settle cfg nd).watchers, w.pending = []) ∧ (settle cfg nd).notifs = [] ∧
+    ∀ w ∈ (settle cfg nd).watchers, w.isPrefix = false →
+      verOf (settle cfg nd).store w.key = seenOf w w.key ∧
+      ∀ v, lookL w.last w.key = some v → ∃ e, getE (settle cfg nd).store w.key = some e ∧ v = removeTombstones none e.val :=
+  PfC06.settle_caught_up h hn
 
 /-! ### `WatchPrefix`: the bounded channel, exactly
 
@@ -363,5 +474,24 @@ example : ((runC cfg0 (initC 2 10) (evs1.take 4)).nodes[1]?.map fun nd => nd.wat
     some [(["r1"], none)] := by decide
 example : ((runC cfg0 (initC 2 10) evs1).nodes[1]?.map fun nd => nd.watchers.map fun w => (w.pending, lookL w.last "r1", seenOf w "r1")) =
     some [([], some [U1 "a" 8 false], 1)] := by decide
+
+-- non-vacuity of `cluster_values_wf`: the history `evs0` (defined above) writes well-formed values only
+example : WfRun evs0 := by
+  intro ev hev
+  simp only [evs0, List.mem_cons, List.mem_nil_iff, or_false] at hev
+  rcases hev with rfl | rfl | rfl | rfl | rfl | rfl | rfl | rfl | rfl | rfl <;> try trivial
+  · intro v _ out ho; simp [fWrite] at ho; rw [← ho]; exact (PfC05.wf_iff _).1 (by decide)
+  · intro v _ out ho; simp [fWrite] at ho; rw [ho]; exact wf_nil
+
+
+-- the hypothesis `hgone` of `invalidate_sound` is satisfiable: node 1 holds the queued update (r1,[a],v1); the next
+-- delivered update of `a` replaces it by (r1,[a],v2); a re-delivery changes nothing (`no_gossip_without_change`)
+example :
+    let c1 := runC cfg0 (initC 2 10) [.cas 0 "r1" (fWrite [U1 "a" 7 false]), .gossipTick 0, .deliver 1 0]
+    let c2 := runC cfg0 c1 [.cas 0 "r1" (fWrite [U1 "a" 9 false]), .gossipTick 0, .deliver 1 1]
+    let c3 := runC cfg0 c2 [.deliver 1 1]
+    (c1.nodes[1]?.map fun nd => nd.gossipQ.map fun b => (b.key, b.content, b.version)) = some [("r1", ["a"], 1)] ∧
+    (c2.nodes[1]?.map fun nd => nd.gossipQ.map fun b => (b.key, b.content, b.version)) = some [("r1", ["a"], 2)] ∧
+    (c3.nodes[1]?.map fun nd => nd.gossipQ.map fun b => (b.key, b.content, b.version)) = some [("r1", ["a"], 2)] := by decide
 
 end PC06
